@@ -162,7 +162,8 @@ func C08(c *Ctx) {
 						bad = append(bad, a.V.Where(evs[0].Pos)+": leader routine reached without rule.leader being established")
 					}
 				case "parseRuleMemoize":
-					if v, ok := f["p.memoize && !rule.leftRecursive"]; !ok || !v {
+					// the path must know the rule is not left-recursive (directly, or as a conjunct of the guard it passed)
+					if lr, ok := f["rule.leftRecursive"]; !ok || lr {
 						bad = append(bad, a.V.Where(evs[0].Pos)+": rule memo used without establishing !rule.leftRecursive")
 					}
 					fallthrough
